@@ -70,6 +70,29 @@ func c07Generate(c *mon.Ctx) {
 		}
 	}
 
+	// a valid encoding with one byte too many or too few: every value of the extra byte, in front and behind (sign octets,
+	// length prefixes, terminators of other serialisation formats), for a value with the top bit set and one without
+	for _, v := range []*big.Int{new(big.Int).Sub(n, big.NewInt(12345)), big.NewInt(0xabcdef), new(big.Int).Lsh(big.NewInt(0x81), 248), new(big.Int).Lsh(big.NewInt(0x7f), 248)} {
+		enc := oracle.Bytes32(v)
+
+		for b := 0; b < 256; b++ {
+			front := mon.H(append([]byte{byte(b)}, enc...))
+			back := mon.H(append(append([]byte{}, enc...), byte(b)))
+			c.Structured(func() any { return &c07Case{Kind: "decode", In: front, Class: "one-byte-extra"} })
+			c.Structured(func() any { return &c07Case{Kind: "decode", In: back, Class: "one-byte-extra"} })
+		}
+
+		short1, short2 := mon.H(enc[1:]), mon.H(enc[:31])
+		c.Structured(func() any { return &c07Case{Kind: "decode", In: short1, Class: "one-byte-short"} })
+		c.Structured(func() any { return &c07Case{Kind: "decode", In: short2, Class: "one-byte-short"} })
+
+		// DER INTEGER / OCTET STRING wrappings of the same value
+		for _, pre := range [][]byte{{0x02, 0x20}, {0x02, 0x21, 0x00}, {0x04, 0x20}, {0x00, 0x00}, {0x20}} {
+			in := mon.H(append(append([]byte{}, pre...), enc...))
+			c.Structured(func() any { return &c07Case{Kind: "decode", In: in, Class: "wrapped"} })
+		}
+	}
+
 	// every byte value at a few positions of a valid 64-digit hex string
 	hbase := mon.H(oracle.Bytes32(big.NewInt(0x123456789abcdef)))
 	for _, pos := range []int{0, 1, 31, 62, 63} {
